@@ -600,7 +600,7 @@ func RunCheck(o CheckOptions) int {
 		"determinism_rechecks":    tot.DetChecked,
 		"known_findings_reported": nKnown,
 		"workers":                 workers,
-		"components_real":         []string{"go.pennock.tech/tabular (all packages, from /repo working tree, -tags verif)", "Go runtime", "html/template", "encoding/json", "go-runewidth", "uniseg"},
+		"components_real":         []string{"go.pennock.tech/tabular (all packages, from /repo working tree, -tags verif)", "Go runtime", "html/template", "encoding/json", "go-runewidth", "uniseg", "C15 only: one real *os.File per route (/dev/full, every write fails with ENOSPC)"},
 		"components_stub":         []string{"SimWriter (io.Writer)", "SimCallback (PropertyCallback)", "SimItem family (cell contents)", "row-class generator", "cooperative scheduler (concurrent engines)"},
 		"exhaustive":              false,
 	}
